@@ -6,24 +6,148 @@ package sync
 
 import (
 	"sync"
+	"sync/atomic"
 
 	"dsim/simrt"
 )
 
 type (
-	WaitGroup = sync.WaitGroup
-	Once      = sync.Once
-	Cond      = sync.Cond
-	Locker    = sync.Locker
-	Pool      = sync.Pool
-	Map       = sync.Map
+	Locker = sync.Locker
+	Pool   = sync.Pool
+	Map    = sync.Map
 )
 
-func NewCond(l Locker) *Cond { return sync.NewCond(l) }
+// Once, WaitGroup and Cond are not used by the library at the pinned commit; they are provided so
+// that a working tree which starts using them still runs under the scheduler (with the real ones a
+// task would block inside the primitive while another, parked, task holds it, and the run would
+// hang). Their internal state is guarded by real locks and atomics, which are never held across a
+// scheduling point, so the race detector sees the edges the real primitives give.
 
-func OnceFunc(f func()) func()                                 { return sync.OnceFunc(f) }
-func OnceValue[T any](f func() T) func() T                     { return sync.OnceValue(f) }
-func OnceValues[T1, T2 any](f func() (T1, T2)) func() (T1, T2) { return sync.OnceValues(f) }
+// Once: the first caller runs f under a scheduler-aware mutex; the others wait for it to finish.
+type Once struct {
+	mu   Mutex
+	done atomic.Bool
+}
+
+func (o *Once) Do(f func()) {
+	if o.done.Load() {
+		return
+	}
+	o.mu.Lock()
+	defer o.mu.Unlock()
+	if !o.done.Load() {
+		defer o.done.Store(true)
+		f()
+	}
+}
+
+func OnceFunc(f func()) func() {
+	var o Once
+	return func() { o.Do(f) }
+}
+
+func OnceValue[T any](f func() T) func() T {
+	var o Once
+	var v T
+	return func() T { o.Do(func() { v = f() }); return v }
+}
+
+func OnceValues[T1, T2 any](f func() (T1, T2)) func() (T1, T2) {
+	var o Once
+	var v1 T1
+	var v2 T2
+	return func() (T1, T2) { o.Do(func() { v1, v2 = f() }); return v1, v2 }
+}
+
+// WaitGroup: Wait parks the task on a channel (a declared blocking operation).
+type WaitGroup struct {
+	mu sync.Mutex
+	n  int
+	ch chan struct{}
+}
+
+func (wg *WaitGroup) Add(delta int) {
+	simrt.Yield("waitgroup.Add")
+	wg.mu.Lock()
+	wg.n += delta
+	if wg.n < 0 {
+		wg.mu.Unlock()
+		panic("sync: negative WaitGroup counter")
+	}
+	if wg.n == 0 && wg.ch != nil {
+		close(wg.ch)
+		wg.ch = nil
+	}
+	wg.mu.Unlock()
+}
+
+func (wg *WaitGroup) Done() { wg.Add(-1) }
+
+func (wg *WaitGroup) Go(f func()) {
+	wg.Add(1)
+	simrt.Go("waitgroup.Go", func() {
+		defer wg.Done()
+		f()
+	})
+}
+
+func (wg *WaitGroup) Wait() {
+	wg.mu.Lock()
+	if wg.n == 0 {
+		wg.mu.Unlock()
+		simrt.Yield("waitgroup.Wait")
+		return
+	}
+	if wg.ch == nil {
+		wg.ch = make(chan struct{})
+	}
+	c := wg.ch
+	wg.mu.Unlock()
+	t := simrt.BlockBegin("waitgroup.Wait")
+	<-c
+	simrt.BlockEnd(t)
+}
+
+// Cond: waiters park on their own channel; Signal wakes the longest waiting one.
+type Cond struct {
+	L       Locker
+	mu      sync.Mutex
+	waiters []chan struct{}
+}
+
+func NewCond(l Locker) *Cond { return &Cond{L: l} }
+
+func (c *Cond) Wait() {
+	ch := make(chan struct{})
+	c.mu.Lock()
+	c.waiters = append(c.waiters, ch)
+	c.mu.Unlock()
+	c.L.Unlock()
+	t := simrt.BlockBegin("cond.Wait")
+	<-ch
+	simrt.BlockEnd(t)
+	c.L.Lock()
+}
+
+func (c *Cond) Signal() {
+	simrt.Yield("cond.Signal")
+	c.mu.Lock()
+	if len(c.waiters) > 0 {
+		close(c.waiters[0])
+		c.waiters = c.waiters[1:]
+	}
+	c.mu.Unlock()
+}
+
+func (c *Cond) Broadcast() {
+	simrt.Yield("cond.Broadcast")
+	c.mu.Lock()
+	for _, w := range c.waiters {
+		close(w)
+	}
+	c.waiters = nil
+	c.mu.Unlock()
+}
 
 type Mutex struct {
 	mu sync.Mutex
